@@ -21,6 +21,8 @@ void scen_lfht_seq(void);
 void scen_rculist(void);
 void scen_signals(void);
 void scen_fork(void);
+void scen_progress(void);
+void scen_uatomic(void);
 
 const struct usim_scenario usim_scenarios[] = {
 	{ "gp", "C01", scen_gp },
@@ -41,5 +43,7 @@ const struct usim_scenario usim_scenarios[] = {
 	{ "rculist", "C18", scen_rculist },
 	{ "signals", "C19", scen_signals },
 	{ "fork", "C16", scen_fork },
+	{ "progress", "C17", scen_progress },
+	{ "uatomic", "C20", scen_uatomic },
 };
 const int usim_nscenarios = sizeof(usim_scenarios) / sizeof(usim_scenarios[0]);
